@@ -66,6 +66,7 @@ fn k6_rank1() {
 /// has exactly k ones below it
 #[kani::proof]
 #[kani::unwind(9)]
+#[kani::stub_verified(select_in_word)]
 fn k6_select1() {
     let l = DataLine { words: kani::any() };
     let k: usize = kani::any();
@@ -85,6 +86,7 @@ fn k6_select1() {
 
 #[kani::proof]
 #[kani::unwind(9)]
+#[kani::stub_verified(select_in_word)]
 fn k6_select0_unchecked() {
     let l = DataLine { words: kani::any() };
     let k: usize = kani::any();
